@@ -197,17 +197,23 @@ pub const C01: ConcCheck = ConcCheck {
 /// long programs on 4-8 threads (several resize generations, helpers arriving anywhere), random tapes
 pub const C01L: ConcCheck = ConcCheck { sub: "lin-long", mix: Mix::Long, max_threads: 8, max_ops: 12, ..C01 };
 
+pub const C01M: ConcCheck = ConcCheck { sub: "lin-long-mixed", mix: Mix::LongMixed, max_threads: 6, max_ops: 10, ..C01 };
+
 fn c01_shard(ctx: &Ctx, out: &mut ShardOut) {
     let pool = Pool::new();
     let n = ctx.share(ctx.by_tier(1600, 24_000)) as u32;
     C01.run(ctx, &pool, 1, n, &budget_for(ctx.tier, ctx.shard_seed(77)), out);
     let lb = Budget { single: 0, double: 0, coarse2: 0, tapes: ctx.by_tier(24, 200) as usize, tape_seed: ctx.shard_seed(92) };
     C01L.run(ctx, &pool, 2, ctx.share(ctx.by_tier(128, 4_000)) as u32, &lb, out);
+    C01M.run(ctx, &pool, 3, ctx.share(ctx.by_tier(160, 5_000)) as u32, &lb, out);
 }
 fn c01_replay(sub: &str, case: &Value) -> Result<(), CaseFail> {
     let pool = Pool::new();
     if sub == "lin-long" {
         return C01L.replay(&pool, case, &Budget { single: 0, double: 0, coarse2: 0, tapes: 200, tape_seed: 1 });
+    }
+    if sub == "lin-long-mixed" {
+        return C01M.replay(&pool, case, &Budget { single: 0, double: 0, coarse2: 0, tapes: 200, tape_seed: 1 });
     }
     C01.replay(&pool, case, &budget_for(Tier::Thorough, 1))
 }
